@@ -135,6 +135,9 @@ pub assume_specification[ String::len ](s: &String) -> (r: usize)
 pub assume_specification<T, F: FnOnce(T) -> bool>[ Option::<T>::is_some_and ](o: Option<T>, f: F) -> (r: bool)
     requires o.is_some() ==> call_requires(f, (o.unwrap(),)),
     ensures o.is_none() ==> !r, o.is_some() ==> call_ensures(f, (o.unwrap(),), r);
+/// `Result::unwrap_or`
+pub assume_specification<T, E>[ Result::<T, E>::unwrap_or ](r0: Result<T, E>, d: T) -> (r: T)
+    ensures r == (match r0 { Ok(v) => v, Err(_) => d });
 /// `String::truncate(n)`: no effect beyond the end; panics unless `n` is a char boundary
 pub assume_specification[ String::truncate ](s: &mut String, n: usize)
     requires n as int > vstd::utf8::encode_utf8(old(s)@).len() || exists|k: int| 0 <= k <= old(s)@.len() && #[trigger] boff(old(s)@, k) == n as int,
